@@ -5,6 +5,8 @@ from . import proggen as G
 
 ID = "C20"
 AUDIT_IMPORTS = ["PortusModel.Props.C20Layout", "PortusModel.Lemmas.Accept2"]
+# theorems of Props/Tables.lean over the tables TRANSLATED from /repo/src and libccp's headers on every run (DESIGN 11.7)
+TABLE_THEOREMS = ['src_opTable_eq']
 THEOREMS = ["Portus.Lang.Typing.well_typed_accepted", "Portus.Lang.Typing.well_typed_accepted_upd", "Portus.Lang.Typing.well_typed_image",
             "Portus.Lang.Typing.wtSrc_accepted", "Portus.Lang.Typing.richSrc_accepted", "Portus.Lang.Typing.wellTyped_eq",
             "Portus.Lang.Typing.wellTyped_mono", "Portus.Lang.Typing.compile_value", "Portus.Lang.Typing.nestedSrc_accepted",
